@@ -235,6 +235,21 @@ def build_queries(facts):
                 continue
             site = z3.And(eff, zcfg(pth['cfg']))
             qs.append(dict(kind='path', where=f"{f['path']}:{pth['line']}", what='::'.join(segs) + ' -> ' + r[1], formula=z3.And(site, z3.Not(r[0]), SOME)))
+        # 1b. rejections are not feature-dependent inside a function: a diagnostic constructor (an item of a `panic` module) referred to
+        #     under a statement-level cfg exists only for some feature subsets of its enclosing function, so the same input would be
+        #     refused under some subsets and accepted under others
+        for pth in f['paths']:
+            segs = [nm(x) for x in pth['segments']]
+            if 'panic' not in segs[:-1] or pth.get('fn') is None or pth.get('fn_cfg') is None:
+                continue
+            if f['path'] != 'lib.rs':
+                # inside a trait's own (feature-gated) modules a rejection about the coupled partner trait legitimately exists only
+                # when the partner's feature is on (ord/models/field_attribute.rs); the obligation is claimed for the shared entry point only
+                continue
+            fn_site = z3.And(eff, zcfg(pth['fn_cfg']))
+            qs.append(dict(kind='rejection-gate', where=f"{f['path']}:{pth['line']}", diagnostic=segs[-1], fn=pth['fn'],
+                           what=f"rejection `{'::'.join(segs)}` in fn {pth['fn']} is compiled only under some feature subsets of that function",
+                           formula=z3.And(fn_site, z3.Not(zcfg(pth['cfg'])), SOME)))
         # 2. cfg'd lets cover their uses
         lets = {}
         for l in f['lets']:
@@ -390,7 +405,7 @@ def main(tier, seed, keep=False):
         except Exception:
             pass
     # replay each distinct model through rustc
-    violations, refuted = [], []
+    violations, refuted, inconclusive_replays = [], [], []
     by_subset = {}
     for q in sat:
         by_subset.setdefault(tuple(q['subset']), []).append(q)
@@ -398,6 +413,15 @@ def main(tier, seed, keep=False):
     for subset, ql in list(by_subset.items())[:8]:
         replays += 1
         kinds = {q['kind'] for q in ql}
+        if kinds == {'rejection-gate'}:
+            ok, detail = replay_rejection(list(subset), ql)
+            if ok is None:
+                inconclusive_replays.append((subset, ql, detail))
+            elif not ok:
+                violations.append((subset, ql, detail))
+            else:
+                refuted.append((subset, [q['what'] for q in ql]))
+            continue
         if kinds <= {'variant-gate', 'arm-gate', 'dispatch-gate'}:
             ok, detail = replay_trait_name(list(subset), ql)
             if not ok:
@@ -432,6 +456,8 @@ def main(tier, seed, keep=False):
     for subset, out in val_fail:
         # rustc refutes a subset the model calls fine: a real failure the encoder did not predict — still a violation, found by the validation pass
         violations.append((tuple(subset), [dict(kind='validation', where='cargo check', what='subset fails to build although every structural query is unsat (found by the rustc validation pass, not by the solver)')], out))
+    for subset, ql, detail in inconclusive_replays:
+        inconclusive.append(f"{ql[0]['where']}: {ql[0]['what']} (feature subset {list(subset)}); not replayed: {detail}")
     known = load_known('C18')
     out_v = []
     for subset, ql, detail in violations:
@@ -456,6 +482,44 @@ def main(tier, seed, keep=False):
                             bounds=dict(feature_subsets='all 4096 (symbolic)', outside=['warnings other than unused imports / unresolved names', 'anything rustc decides that the reference model does not see', 'behaviour under subsets outside the stated list']),
                             checker_cmd='z3 per obligation; cvc5 on a sample; cargo check --no-default-features --features <subset> with -D warnings per model', exhaustive=False, inconclusive=inconclusive[:10]))
     return ev, out_v, inconclusive, known, len(qs), len(sat), validated, cross
+
+
+REJECTION_INPUTS = {
+    # diagnostic constructor -> derive input that reaches it ({T} = a trait enabled in the subset)
+    'reuse_a_trait': '#[derive(Educe)]\n#[educe({T}, {T})]\nstruct S(u8);',
+    'unsupported_trait': '#[derive(Educe)]\n#[educe(NoSuchTrait)]\nstruct S(u8);',
+    'educe_format_incorrect': '#[derive(Educe)]\n#[educe = "x"]\nstruct S(u8);',
+    'derive_attribute_not_set_up_yet': '#[derive(Educe)]\nstruct S(u8);',
+}
+
+
+def replay_rejection(subset, ql):
+    """differential replay: the same derive input under the model's feature subset and under all features must be refused with the
+    same diagnostic.  -> True (no difference: model refuted), False (difference shown), None (no input known for this diagnostic)"""
+    diag = ql[0].get('diagnostic')
+    tmpl = REJECTION_INPUTS.get(diag)
+    if tmpl is None or not subset:
+        return None, f'no replay input is known for diagnostic `{diag}`'
+    t = [x for x in subset if x != 'Into'] or list(subset)
+    attr = {'Into': 'Into(u8)'}.get(t[0], t[0])
+    src = '#![allow(dead_code)]\nuse educe::Educe;\n' + tmpl.replace('{T}', attr) + '\n'
+    outs = []
+    for feats in (subset, FEATURES):
+        tmp = tempfile.mkdtemp(prefix='educe_c18r_')
+        try:
+            os.makedirs(os.path.join(tmp, 'src'))
+            fl = ', '.join(f'"{f}"' for f in feats)
+            open(os.path.join(tmp, 'Cargo.toml'), 'w').write(f'[package]\nname = "rj"\nversion = "0.0.0"\nedition = "2021"\n[dependencies]\neduce = {{ path = "{REPO}", default-features = false, features = [{fl}] }}\n[workspace]\n')
+            copy_lock(tmp)
+            open(os.path.join(tmp, 'src', 'lib.rs'), 'w').write(src)
+            rc, out = sh(['cargo', 'check', '--offline', '--target-dir', os.path.join(WORK, 'target-e3n')], cwd=tmp, timeout=900)
+            errs = sorted(set(l.strip() for l in out.splitlines() if l.startswith('error') and 'could not compile' not in l))
+            outs.append((rc != 0, errs))
+        finally:
+            shutil.rmtree(tmp, ignore_errors=True)
+    if outs[0] != outs[1]:
+        return False, f'input:\n{src}\nunder features {subset}: refused={outs[0][0]} {outs[0][1]}\nunder all features: refused={outs[1][0]} {outs[1][1]}'
+    return True, 'same outcome under both feature sets'
 
 
 def replay_trait_name(subset, ql):
